@@ -31,11 +31,17 @@ def shards(tier, seed):
     for j in range(J):
         out.append({'name': f'dict{j}', 'backing': 'dict', 'mod': J, 'rem': j,
                     'N': lim['ND'], 'all_i': lim['NSHARD_ALL']})
-    for backing in ('dict-map', 'dict-slice', 'dict-concat', 'dict-cache'):
+    for backing in ('dict-map', 'dict-slice', 'dict-concat', 'dict-cache') + WARM:
         for j in range(2):
             out.append({'name': f'{backing}{j}', 'backing': backing, 'mod': 2, 'rem': j,
                         'N': lim['ND'] // 2, 'all_i': 10})
     return out
+
+
+# datasets that are selections already (index arrays on index arrays when they
+# are split) and whose keys(), len() and a key lookup were used before the split
+WARM = ('dict-shuffled-warm', 'dict-sorted-warm', 'dict-reversed-warm',
+        'dict-tail-warm', 'dict-fancy-warm', 'dict-shuffled-cold')
 
 
 def make(ld, n, backing):
@@ -55,12 +61,39 @@ def make(ld, n, backing):
         ds = ds[:h].concatenate(ds[h:2 * h], ds[2 * h:]) if n else ds
     elif backing == 'dict-cache':
         ds = ds.cache()
+    elif backing in WARM:
+        import numpy as np
+        if 'shuffled' in backing:
+            ds = ds.shuffle(rng=np.random.RandomState(n))
+        elif 'sorted' in backing:
+            ds = ds.sort(lambda x: -x)
+        elif 'reversed' in backing:
+            ds = ds[::-1]
+        elif 'tail' in backing:
+            ds = ds[n // 4:]
+        elif 'fancy' in backing:
+            ds = ds[[i for i in range(n) if i % 3 != 1][::-1]]
+        if backing.endswith('-warm'):
+            ks = ds.keys()
+            len(ds)
+            if ks:
+                ds[ks[0]], ds[ks[-1]], ds[0]
+        keys = list(ds.keys()) if backing.endswith('-warm') else None
+        return ds, keys
     return ds, keys
 
 
 def check_case(ld, n, k, backing, all_i, res):
     case = {'n': n, 'k': k, 'backing': backing}
     ds, keys = make(ld, n, backing)
+    n0 = n
+    if backing in WARM:
+        want = list(ds)            # the selection's own order and size
+        n = len(want)
+        if keys is None:
+            keys = [f'k{v}' for v in want]
+    else:
+        want = list(range(n))
     legal = 1 <= k <= n
     try:
         parts = ds.split(k)
@@ -70,21 +103,21 @@ def check_case(ld, n, k, backing, all_i, res):
         else:
             res.count('refusals_observed')
             res.seen('refusal_types', type(e).__name__)
-        res.case((n, k, backing))
+        res.case((n0, k, backing))
         return
     if not legal:
         res.violation('accepted-illegal-count', case,
                       {'parts': len(parts)}, sig={'which': 'split'})
-        res.case((n, k, backing))
+        res.case((n0, k, backing))
         return
-    res.case((n, k, backing))
+    res.case((n0, k, backing))
     lists = [list(p) for p in parts]
     res.count('parts_observed', len(lists))
     if len(lists) != k:
         res.violation('wrong-number-of-parts', case, {'got': len(lists)})
     flat = [x for p in lists for x in p]
-    if flat != list(range(n)):
-        kind = ('not-a-partition' if sorted(flat) != list(range(n))
+    if flat != want:
+        kind = ('not-a-partition' if sorted(flat) != sorted(want)
                 else 'order-not-preserved')
         res.violation(kind, case, {'parts': lists if n <= 12 else None})
     sizes = [len(p) for p in lists]
@@ -101,6 +134,28 @@ def check_case(ld, n, k, backing, all_i, res):
             if [int(kk[1:]) for kk in p.keys()] != l:
                 res.violation('keys-misaligned', case, None)
         res.count('key_tuples_observed', len(parts))
+        # disjoint in the keyed view as well: a shard serves its own keys and
+        # refuses every key that belongs to another shard
+        for pi, (p, l) in enumerate(zip(parts, lists)):
+            if pi not in (0, len(parts) // 2, len(parts) - 1):
+                continue
+            own = set(l)
+            for v in want:
+                kk = f'k{v}'
+                try:
+                    got = p[kk]
+                except BaseException:
+                    if v in own:
+                        res.violation('shard-refuses-own-key', {**case, 'part': pi,
+                                                                'key': kk}, None)
+                        break
+                    res.count('foreign_key_refusals')
+                    continue
+                res.count('shard_key_lookups')
+                if v not in own or got != v:
+                    res.violation('shard-serves-foreign-key', {**case, 'part': pi,
+                                                               'key': kk}, {'got': got})
+                    break
     # shard(k, i) == split(k)[i]
     if n <= all_i:
         idx = list(range(k)) + [-1]
@@ -164,9 +219,10 @@ def run_shard(spec, res):
             if cnt % spec['mod'] != spec['rem']:
                 continue
             check_case(ld, n, k, spec['backing'], spec['all_i'], res)
-            if not (1 <= k <= n):
+            if not (1 <= k <= n) and spec['backing'] not in WARM:
                 check_illegal_shard(ld, n, k, spec['backing'], res)
-            if len(res.samples) < 2 and 1 <= k <= n and n >= 5:
+            if len(res.samples) < 2 and 1 <= k <= n and n >= 5 \
+                    and spec['backing'] not in WARM:
                 ds, _ = make(ld, n, spec['backing'])
                 res.sample({'n': n, 'k': k, 'backing': spec['backing'],
                             'parts': [list(p) for p in ds.split(k)]})
@@ -176,7 +232,7 @@ def finalize(res, tier):
     lim = LIMITS[tier]
     expected = sum(n + 4 for n in range(lim['N'] + 1)) + \
         sum(n + 4 for n in range(lim['ND'] + 1)) + \
-        4 * sum(n + 4 for n in range(lim['ND'] // 2 + 1))
+        (4 + len(WARM)) * sum(n + 4 for n in range(lim['ND'] // 2 + 1))
     if res.evaluations != expected:
         res.inconclusive_because(
             f'enumerated {res.evaluations} (n,k) cases, expected {expected}')
